@@ -91,7 +91,25 @@ func timerHistory(prop string, r *rng, id string) {
 	k := 4 + r.intn(20)
 	ops := []mop{{kind: 'A', node: "n2", inc: 1, addr: 2}, {kind: 'A', node: "n3", inc: 1, addr: 7}}
 	nt := 0
+	// a third of the histories contain the chain suspicion - refutation - new suspicion - expiry of the FIRST
+	// suspicion's timer (it was dropped from the table but not stopped): the old timer must not touch the new suspicion
+	chainAt := -1
+	if r.chance(1, 3) {
+		chainAt = r.intn(k)
+	}
 	for j := 0; j < k; j++ {
+		if j == chainAt {
+			i := uint32(1 + r.intn(2))
+			from := []string{"S", "n2", "n3"}
+			ops = append(ops, mop{kind: 'A', node: "n1", inc: i, addr: 1},
+				mop{kind: 'S', node: "n1", inc: i, from: from[r.intn(3)]},
+				mop{kind: 'A', node: "n1", inc: i + 1, addr: 1},
+				mop{kind: 'S', node: "n1", inc: i + 1, from: from[r.intn(3)]})
+			for f := 0; f < 4; f++ {
+				ops = append(ops, mop{kind: 'F', timer: f})
+			}
+			continue
+		}
 		switch r.intn(10) {
 		case 0, 1:
 			ops = append(ops, mop{kind: 'S', node: "n1", inc: uint32(1 + r.intn(3)), from: []string{"S", "n2", "n3"}[r.intn(3)]})
